@@ -17,7 +17,7 @@ RULE = ('virtual clock; timeouts in {1,2,7,200,1000,1001,9999,10000} ms; (rx) st
         'stop_sending followed by silence of 3T with idle passes: no timeout error. Plus the exhaustive ms->ns conversion table 0..20000 ms '
         'evaluated inside Coq (PrimFloat, vm_compute) against the Python expression the harness uses. All cases replayed on the model.'
         ' (tx, after_max_waits) the whole wftmax budget of Wait frames is used up in time, then the deadline passes: exactly one FlowControlTimeoutError whatever arrives afterwards. (blocking_rx) rxfn advances the virtual clock before handing over a Consecutive Frame (blocking read): the deadline is judged at hand-over; the model sees tick-then-process.'
-        ' In the rx campaign the frame before the gap, when it asks for a Flow Control, is also processed by separate receive-only and transmit-only calls with time in between: the deadline runs from the emission of the Flow Control; and the First Frame is read by a receive-only call followed only by receive-only calls during the gap: no Flow Control has been sent, the deadline runs from the First Frame.')
+        ' In the rx campaign the frame before the gap, when it asks for a Flow Control, is also processed by separate receive-only and transmit-only calls with time in between: the deadline runs from the emission of the Flow Control; and the First Frame is read by a receive-only call followed only by receive-only calls during the gap: no Flow Control has been sent, the deadline runs from the First Frame. In the tx campaign a third of the Flow Controls arrive full duplex with split calls: the Flow Control and a First Frame of the peer are read by two receive-only calls before the next transmitting call.')
 ASSUME = ['deadlines are measured at processing instants of the virtual clock (the latency inside one process() call is runtime)']
 
 TIMEOUTS = [1, 2, 7, 200, 1000, 1001, 9999, 10000]
@@ -134,7 +134,15 @@ def gen_tx_case(rng):
     late_fc = rng.choice(['cts', 'wait', 'none']) if wft else rng.choice(['cts', 'none'])
     if where == 'after_max_waits' and rng.random() < 0.6:
         late_fc = 'wait'
-    if late_fc == 'cts':
+    duplex = late_fc != 'none' and where != 'after_standby' and rng.random() < 0.3
+    if duplex:
+        # full duplex with split passes: the Flow Control for the layer's message and a First Frame of the peer (which makes the layer
+        # owe a Flow Control of its own) are read by two receive-only calls, in either order, before the next transmitting call
+        two = [[fc(0, 0) if late_fc == 'cts' else fc(1, 0), [0, 'proc', 1, 0]],
+               [[0, 'rx', rid, int(ext), hx(pfx + bytes([0x10, 20]) + bytes(range(6 - len(pfx))))], [0, 'proc', 1, 0]]]
+        rng.shuffle(two)
+        ops += two[0] + two[1]
+    elif late_fc == 'cts':
         ops.append(fc(0, 0))
     elif late_fc == 'wait':
         ops.append(fc(1, 0))
@@ -145,7 +153,7 @@ def gen_tx_case(rng):
     mark = len(ops)
     ops += [[0, 'tick', 3 * T + 11], [0, 'proc', 1, 1], [0, 'tick', T + 1], [0, 'proc', 1, 1]]
     return {'insts': [inst], 'ops': ops, 'nops': len(ops), 'late': late, 'kind': 'tx', 'T_ms': Tms, 'gap_ns': gap, 'where': where,
-            'late_fc': late_fc, 'mark': mark}
+            'late_fc': late_fc, 'mark': mark, 'duplex': duplex}
 
 
 def oracle_tx(case, lines, insts):
